@@ -11,8 +11,8 @@ import (
 )
 
 // ZZ_C06_blocksanity: a block (correctly sealed: merkle root, merged-mining
-// proof, proof of work) with a coinbase and two transactions whose 1..2 inputs
-// are drawn from a pool of 4 outpoints passes CheckBlockSanity only if no
+// proof, proof of work) with a coinbase and two transactions with 1..2 and 1 inputs
+// drawn from a pool of 4 outpoints (with arbitrary sequence numbers) passes CheckBlockSanity only if no
 // outpoint is spent twice in it — within one transaction or across two.
 func ZZ_C06_blocksanity() {
 	b := zzSanityChain()
@@ -22,7 +22,11 @@ func ZZ_C06_blocksanity() {
 	var all []common2.OutPoint
 	for i := 0; i < 2; i++ {
 		t := &zzBlkTx{id: common.Uint256{0xD0, byte(i)}}
-		for j := 0; j <= nd.Choose("extraInput", 2); j++ {
+		extra := 0
+		if i == 0 {
+			extra = nd.Choose("extraInput", 2) // the first transaction has 1..2 inputs, the second one
+		}
+		for j := 0; j <= extra; j++ {
 			in := zzInput("input")
 			t.ins = append(t.ins, in)
 			all = append(all, in.Previous)
